@@ -1,2 +1,3 @@
 pub mod parser;
 pub mod positions;
+pub mod recovery;
